@@ -36,8 +36,12 @@ GBeginInvoke == (\E i \in Fns, s \in Scopes : BeginInvoke(i, s)) /\ Emit
 GDescend     == Descend /\ Emit
 GUnwind      == Unwind /\ Emit
 GExec        == (\E o \in {"ok", "err", "panic"} : Exec(o)) /\ Emit
+GEnter       == Enter /\ Emit
+GNestBegin   == NestBegin /\ Emit
+GNestReturn  == NestReturn /\ Emit
 
 GenNext == GCreateScope \/ GProvide \/ GDecorate \/ GBeginInvoke \/ GDescend \/ GUnwind \/ GExec
+           \/ GEnter \/ GNestBegin \/ GNestReturn
 
 GenSpec == GenInit /\ [][GenNext]_<<vars, hist>>
 
